@@ -150,6 +150,7 @@ func runC01(c *core.Ctx, r *core.Reporter) {
 	// "quoting a datum of any kind yields exactly that datum": the reader applies the quote marker to every kind of object
 	c02deliver(c, r, "C01.quote")
 	c01testvalue(c, r)
+	c01kwself(c, r)
 	const once = "C01.once"
 	const branch = "C01.branch"
 	r.Rule(once, "in the Call method of each core form (and the helpers in its package that it calls statically), no two distinct evaluation sites with the same list operand and the same index (constants folded; or the same SSA index value inside one loop iteration) lie on one path", 25)
